@@ -10,6 +10,7 @@ import (
 	"verif/harness/core"
 	"verif/harness/dbx"
 	"verif/harness/faultfs"
+	"verif/harness/format"
 	"verif/harness/keys"
 )
 
@@ -50,6 +51,7 @@ type fsess struct {
 	inlineDeletes  int
 	lastHot        bool
 	compactRanges  [][2]int // log ranges of Compact calls
+	trivialHistory bool     // set by a check whose non-triviality rule the history does not meet
 }
 
 type fevent struct {
@@ -353,6 +355,96 @@ func (s *fsess) killAndRecover() error {
 	return s.readback("after kill + recovery")
 }
 
+func (s *fsess) numSegments() int {
+	n := 0
+	_ = core.Safe(func() error { n = len(s.db.VerifSegments()); return nil })
+	return n
+}
+
+// fillUntilRollover puts filler keys (never a victim) until the log rolls over, at most max puts.
+func (s *fsess) fillUntilRollover(victims map[string]bool, max int) error {
+	before := s.numSegments()
+	for i := 0; i < max; i++ {
+		k := s.ukeys[s.ch.Int("filler", 0, len(s.ukeys)-1)]
+		if victims[k] {
+			continue
+		}
+		if err := s.put(k, core.PickInt(s.ch, "filler_vlen", []int{20, 60, 120, 300})); err != nil {
+			return err
+		}
+		if s.numSegments() > before {
+			return nil
+		}
+	}
+	return nil
+}
+
+// hazardPrefill is a directed prefix aimed at the delete-marker hazard of compaction: victim
+// keys are put into an old segment that stays little fragmented; a newer segment receives their
+// overwrites and delete records together with churn that fragments it (so that it becomes
+// eligible for compaction on its own merits); optionally the process is killed and recovered
+// before the compaction (the segment metadata compaction relies on is then what recovery
+// rebuilt). Whether a delete marker may be dropped depends on the older segment being
+// compacted along - a stale put that survives resurrects the key at the next recovery.
+func (s *fsess) hazardPrefill() error {
+	s.ch.Note("-- directed prefix: delete-marker hazard")
+	victims := map[string]bool{}
+	nv := s.ch.Int("victims", 1, 3)
+	var vs []string
+	for i := 0; i < nv; i++ {
+		k := s.ukeys[s.ch.Int("victim", 0, len(s.ukeys)-1)]
+		if !victims[k] {
+			victims[k] = true
+			vs = append(vs, k)
+		}
+	}
+	// old segment: the victims' first puts, then filler until it is sealed
+	for _, k := range vs {
+		if err := s.put(k, core.PickInt(s.ch, "victim_vlen", []int{1, 20, 60, 120})); err != nil {
+			return err
+		}
+	}
+	if core.Pct(s.ch, "seal_old", 85) {
+		if err := s.fillUntilRollover(victims, 30); err != nil {
+			return err
+		}
+	}
+	// newer segment: overwrite and/or delete the victims, churn on one hot key
+	for _, k := range vs {
+		if core.Pct(s.ch, "victim_overwrite", 60) {
+			if err := s.put(k, core.PickInt(s.ch, "victim_vlen2", []int{0, 5, 60})); err != nil {
+				return err
+			}
+		}
+		if core.Pct(s.ch, "victim_delete", 85) {
+			if err := s.del(k); err != nil {
+				return err
+			}
+		}
+	}
+	hot := s.ukeys[s.ch.Int("churnkey", 0, len(s.ukeys)-1)]
+	if !victims[hot] {
+		for i, n := 0, s.ch.Int("churn_n", 0, 8); i < n; i++ {
+			if err := s.put(hot, core.PickInt(s.ch, "churn_vlen", []int{5, 20, 60})); err != nil {
+				return err
+			}
+		}
+	}
+	if core.Pct(s.ch, "seal_new", 70) {
+		if err := s.fillUntilRollover(victims, 30); err != nil {
+			return err
+		}
+	}
+	if core.Pct(s.ch, "recover_before_compaction", 50) {
+		if err := s.killAndRecover(); err != nil {
+			return err
+		}
+		s.st.Count("hazard_prefix_with_recovery_before_compaction", 1)
+	}
+	s.st.Count("hazard_prefixes", 1)
+	return nil
+}
+
 // runOps executes n drawn top-level operations with the given weights:
 // put, del, compact, sync, reopen, get, kill+recover.
 func (s *fsess) runOps(n int, weights []int) error {
@@ -463,6 +555,12 @@ func checkImage(img *faultfs.State, cfg dbx.Config, ukeys []string, allowed []ma
 					return nil, fmt.Errorf("%s: recovered database: %v", desc, err)
 				}
 			}
+			// the log a recovery (or a clean open) leaves behind must itself be a valid
+			// record sequence that replays to the same contents: otherwise the next crash
+			// recovers to something else (independent decoder of the documented format)
+			if err := logConsistent(fs2, got); err != nil {
+				return nil, fmt.Errorf("%s: %v", desc, err)
+			}
 			return &imageResult{Matched: i, Got: got, DB: db, FS: fs2}, nil
 		}
 	}
@@ -471,4 +569,24 @@ func checkImage(img *faultfs.State, cfg dbx.Config, ukeys []string, allowed []ma
 		fmt.Fprintf(&sb, "\n  vs admissible state %d: %s", i, dbx.Diff(got, a))
 	}
 	return nil, fmt.Errorf("%s: recovered contents match no admissible state (%d keys recovered)%s", desc, len(got), sb.String())
+}
+
+// logConsistent checks, with the independent decoder, that every segment file of the opened
+// database is a valid record sequence up to its very end and that replaying the segments in
+// sequence order yields exactly the contents the database serves.
+func logConsistent(fsys *faultfs.FS, got map[string]string) error {
+	files := dirFiles(fsys.Snapshot(), "db")
+	replayed, ends, err := format.Replay(files)
+	if err != nil {
+		return fmt.Errorf("after Open the segment files are not readable by the independent decoder: %v", err)
+	}
+	for name, end := range ends {
+		if l := len(files[name]); l != end && l != 0 {
+			return fmt.Errorf("after Open segment %s is %d bytes long but its valid record prefix ends at %d: the next recovery will discard or misread what follows", name, l, end)
+		}
+	}
+	if !dbx.Equal(replayed, got) {
+		return fmt.Errorf("after Open the database serves contents that differ from a replay of its own log (what the next recovery would produce): %s", dbx.Diff(got, replayed))
+	}
+	return nil
 }
